@@ -33,7 +33,7 @@ func writeEvidence(sum *Summary, prop, tier string, opt options, l *Loaded, wall
 			"harness": r.Spec.Pkg + "." + r.Spec.Harness, "bounds": r.Spec.Cfg, "paths": r.Paths, "dead_prefixes": r.Infeasible,
 			"branch_decisions": r.Branches, "assertions_checked": r.Asserts, "queries": r.Queries, "solver_s": round(r.SolverS), "wall_s": round(r.WallS),
 			"failing": len(r.Fails), "validated_natively": r.Validated, "max_comparator_calls": r.MaxTicks,
-			"incomplete": r.Incomplete, "error": r.Err,
+			"incomplete": r.Incomplete, "error": r.Err, "second_solver": r.CrossSolver, "second_solver_paths": r.CrossPaths,
 		})
 		if r.Incomplete != "" {
 			incomplete = append(incomplete, r.Spec.String()+": "+r.Incomplete)
@@ -90,6 +90,7 @@ func writeEvidence(sum *Summary, prop, tier string, opt options, l *Loaded, wall
 			"unconfirmed":         unconf,
 			"problems":            sum.Problems,
 			"known_findings_seen": len(sum.Known),
+			"harness_runs_cross_checked_with_second_solver": sum.CrossChecked,
 			"exit_code":           code,
 		},
 		"assumptions": []string{
